@@ -36,6 +36,12 @@ def _case(draw):
     case = {'n': n, 'edges': edges, 'outcomes': outs, 'workers': workers, 'sched': sched}
     case.update(draw(sc.extras(n)))
     case.update(draw(sc.preludes(n, with_init=False)))
+    if draw(st.integers(0, 4)) == 0:
+        # environment resumed from an earlier session: some tasks are DONE already (entries
+        # shaped as the back-end leaves them); they are re-executed when a dependency is newer
+        init = {str(i): 'DONE' for i in range(n) if draw(st.booleans())}
+        if init:
+            case['init'] = init
     return case
 
 
@@ -94,6 +100,24 @@ def judge(case, rec, out, sched_for_replay=None):
             if not isinstance(status, TaskStatus) or status not in sc.FINAL:
                 fails.append(('dep_not_final', f'C01/dep_not_final/dep={dout}',
                               f'{name} started while {kind}-dependency t{dep} had status {status!r}'))
+            if case.get('init'):
+                # resumed environment: which tasks are executed is the scheduler's decision
+                # (C04); what C01 says is that a dependency that IS executed during this call has
+                # returned, and published, before the dependent starts
+                ran = rec.executions[dep] >= 1
+                if ran and not obs['returned']:
+                    fails.append(('dep_not_returned', f'C01/dep_not_returned/resumed/dep={dout}',
+                                  f'{name} started before t{dep}, which is (re-)executed in this '
+                                  f'call, returned from do(); status seen {status!r}'))
+                elif dout == 'done' and ran and not obs['visible']:
+                    fails.append(('update_unreadable', 'C01/update_unreadable/resumed/dep=done',
+                                  f'{name} started while the update returned by t{dep} in this call '
+                                  f'was not (fully) readable; status seen {status!r}'))
+                elif not ran and str(dep) in case['init'] and not obs['visible0']:
+                    fails.append(('update_unreadable', 'C01/update_unreadable/resumed/carried-entry',
+                                  f'{name} started while the entry of t{dep} carried over from the '
+                                  f'earlier session was not readable; status seen {status!r}'))
+                continue
             if execs[dep] == 1 and not obs['returned']:
                 fails.append(('dep_not_returned', f'C01/dep_not_returned/dep={dout}',
                               f'{name} started before t{dep} returned from do()'))
@@ -112,6 +136,8 @@ def judge(case, rec, out, sched_for_replay=None):
 def run_case(case):
     out = Outcome()
     out.labels.extend(sc.shape_labels(case))
+    if case.get('init'):
+        out.labels.append('resumed-environment')
     spec = case['sched']
     hard, soft = sc.deps_of(case)
     has_edge = any(hard[i] | soft[i] for i in hard)
